@@ -6,10 +6,12 @@ package icmp
 // ---------------------------------------------------------------------------------------------
 // C14: the JSON encoders emit the documented keys, each bound to its own field, in a fixed order
 //@ func easyjsonD3b49167EncodeGithubComVByteCpuSxPkgScanIcmp1
+//@   sig out, in
 //@   props C14
 //@   observe RawByte, RawString, Uint8
 //@   entry row object: [call RawByte(out, 123) ; call RawString(out, "\"type\":") ; call Uint8(out, in.Type) ; call RawString(out, ",\"code\":") ; call Uint8(out, in.Code) ; call RawByte(out, 125)] -> exit
 //@ func easyjsonD3b49167EncodeGithubComVByteCpuSxPkgScanIcmp
+//@   sig out, in
 //@   props C14
 //@   observe RawByte, RawString, String, Uint8, easyjsonD3b49167EncodeGithubComVByteCpuSxPkgScanIcmp1
 //@   entry row null:   [call RawByte(out, 123) ; call RawString(out, "\"scan\":") ; call String(out, in.ScanType) ; call RawString(out, ",\"ip\":") ; call String(out, in.IP) ;
@@ -18,10 +20,12 @@ package icmp
 //@                      call RawString(out, ",\"ttl\":") ; call Uint8(out, in.TTL) ; call RawString(out, ",\"icmp\":") ; call easyjsonD3b49167EncodeGithubComVByteCpuSxPkgScanIcmp1(out, bind_resp) ; call RawByte(out, 125)]
 //@                      when in.ICMP != nil && resp.Type == in.ICMP.Type && resp.Code == in.ICMP.Code -> exit
 //@ func (ScanResult).MarshalJSON
+//@   sig v
 //@   props C14
 //@   observe easyjsonD3b49167EncodeGithubComVByteCpuSxPkgScanIcmp, BuildBytes
 //@   entry row enc: [call easyjsonD3b49167EncodeGithubComVByteCpuSxPkgScanIcmp(bind_w, v) ; call BuildBytes(_, _) as (b)] when ret0 == b -> exit
 //@ func (*ScanResult).ID
+//@   sig r
 //@   props C14
 //@   ensures ret == r.IP
 
@@ -31,9 +35,11 @@ package icmp
 //@ pred icmpchain(d []gopacket.LayerType) = (len(d) == 3 && d[0] == layers.LayerTypeEthernet && d[1] == layers.LayerTypeIPv4 && d[2] == layers.LayerTypeICMPv4)
 //@        || (len(d) == 2 && d[0] == layers.LayerTypeIPv4 && d[1] == layers.LayerTypeICMPv4)
 //@ func validPacket
+//@   sig decoded
 //@   props C06 C03 C14 C16 C20
 //@   ensures ret <==> icmpchain(decoded)
 //@ func (*PacketProcessor).ProcessPacketData
+//@   sig p, data, _
 //@   props C06 C03 C16 C14 C20
 //@   observe DecodeLayers, String, Type, Code, Put
 //@   entry row undecodable: [call DecodeLayers(p.parser, data, _) as (e)] when e != nil && ret == e -> exit
@@ -45,6 +51,7 @@ package icmp
 
 // C03: capture filter text: "icmp and icmp[0]!=8" (everything but echo requests), then " and ip src net " + subnet if given
 //@ func BPFFilter
+//@   sig r
 //@   props C03
 //@   modifies nothing
 //@   observe (*strings.Builder).WriteString, (*strings.Builder).String, (*net.IPNet).String
@@ -58,6 +65,7 @@ package icmp
 //@      && ip.Id == 1 + id0 && 1 <= ip.Id && ip.Id <= 65535 && ip.TTL == f.ttl && ip.Flags == f.flags && ip.Length == f.length && ip.Protocol == f.proto
 //@ pred ethhdr(e *layers.Ethernet, r *scan.Request) = fresh(e) && e.SrcMAC == r.SrcMAC && e.DstMAC == r.DstMAC && e.EthernetType == 2048
 //@ func (*PacketFiller).Fill
+//@   sig f, packet, r
 //@   props C05 C11 C17 C01 C02 C19 C07 C13
 //@   observe rand.Intn, layers.CreateICMPv4TypeCode, gopacket.SerializeLayers
 //@   entry row vpn:   [call rand.Intn(65535) as (id0) ; call rand.Intn(65535) as (id1) ; call layers.CreateICMPv4TypeCode(f.typ, f.code) as (tc) ; call gopacket.SerializeLayers(packet, bind_opt, bind_ls) as (se)]
@@ -74,48 +82,58 @@ package icmp
 
 // C05: every option sets exactly its own field (frame: nothing else of the filler changes); the payload option stores a private copy
 //@ func WithTTL$1
+//@   sig f
 //@   props C05
 //@   modifies f.ttl
 //@   ensures f.ttl == ttl
 //@ func WithIPTotalLength$1
+//@   sig f
 //@   props C05
 //@   modifies f.length
 //@   ensures f.length == length
 //@ func WithIPProtocol$1
+//@   sig f
 //@   props C05
 //@   modifies f.proto
 //@   ensures f.proto == proto
 //@ func WithIPFlags$1
+//@   sig f
 //@   props C05
 //@   modifies f.flags
 //@   ensures f.flags == flags
 //@ func WithVPNmode$1
+//@   sig f
 //@   props C05
 //@   modifies f.vpnMode
 //@   ensures f.vpnMode == vpnMode
 //@ func WithType$1
+//@   sig f
 //@   props C05
 //@   modifies f.typ
 //@   ensures f.typ == typ
 //@ func WithCode$1
+//@   sig f
 //@   props C05
 //@   modifies f.code
 //@   ensures f.code == code
 //@ func WithPayload$1
+//@   sig f
 //@   props C05
 //@   modifies f.payload
 //@   ensures len(f.payload) == len(payload) && fresh(backing(f.payload)) && (forall i int :: 0 <= i && i < len(payload) ==> f.payload[i] == payload[i])
 // constructor: defaults (TTL 64, protocol ICMP, don't-fragment, echo request, 48 random payload bytes) are set BEFORE
 // the options run, then the options in order, nothing afterwards (so an explicitly requested empty payload stays empty)
 //@ func NewPacketFiller
+//@   sig opts
 //@   props C05 C01 C02 C11 C17 C19 C07 C13
-//@   observe rand.Read, o
+//@   observe rand.Read, PacketFillerOption
 //@   entry row init:  [call rand.Read(bind_p)] when len(p) == 48 && f.payload == p && f.ttl == 64 && f.proto == 1 && f.flags == 2 && f.typ == 8 && f.code == 0 && f.length == 0 && !f.vpnMode -> loop 0
-//@   loop 0 row apply: [call o(bind_x)] when x == f -> continue
+//@   loop 0 row apply: [call PacketFillerOption(bind_x)] when x == f -> continue
 //@   loop 0 row done:  [] when fresh(ret) && ret == f -> exit
 
 // C06: parser registration (see pkg/scan/arp): first layer Ethernet, or IPv4 in VPN mode; own Ethernet/IPv4/ICMPv4 structs
 //@ func NewPacketProcessor
+//@   sig scanType, results, vpnMode
 //@   props C06 C03 C14 C16 C20
 //@   observe gopacket.NewDecodingLayerParser
 //@   entry row eth: [call gopacket.NewDecodingLayerParser(layers.LayerTypeEthernet, bind_ds) as (pr)]
@@ -125,6 +143,7 @@ package icmp
 //@                     when vpnMode && len(ds) == 3 && isptr(ds[0], layers.Ethernet) && asptr(ds[0], layers.Ethernet) == addr(ret.rcvEth) && isptr(ds[1], layers.IPv4) && asptr(ds[1], layers.IPv4) == addr(ret.rcvIP)
 //@                       && isptr(ds[2], layers.ICMPv4) && asptr(ds[2], layers.ICMPv4) == addr(ret.rcvICMP) && ret.parser == pr && pr.IgnoreUnsupported && !pr.IgnorePanic && ret.results == results && ret.scanType == scanType -> exit
 //@ func NewScanMethod
+//@   sig psrc, results, vpnMode
 //@   props C06 C03 C14 C16 C20
 //@   observe NewPacketProcessor
 //@   entry row build: [call NewPacketProcessor("icmp", results, vpnMode) as (pp)] when ret.PacketSource == psrc && isptr(ret.Processor, PacketProcessor) && asptr(ret.Processor, PacketProcessor) == pp
@@ -132,6 +151,7 @@ package icmp
 
 // plain-text form of a record: printing never panics, whatever the scanned host put into the record (C03 C16)
 //@ func (*ScanResult).String
+//@   sig r
 //@   props C03 C16
 
 // the scan method is the plain composition of its three parts: each role is forwarded unchanged
@@ -150,39 +170,48 @@ package icmp
 
 // option constructors: each returns its own option closure over exactly its argument (verified here, inlined at call sites)
 //@ func WithCode
+//@   sig code
 //@   inline
 //@   props C05
 //@   ensures closureof(ret, "WithCode$1") && capt(ret, "code") == code
 //@ func WithIPFlags
+//@   sig flags
 //@   inline
 //@   props C05
 //@   ensures closureof(ret, "WithIPFlags$1") && capt(ret, "flags") == flags
 //@ func WithIPProtocol
+//@   sig proto
 //@   inline
 //@   props C05
 //@   ensures closureof(ret, "WithIPProtocol$1") && capt(ret, "proto") == proto
 //@ func WithIPTotalLength
+//@   sig length
 //@   inline
 //@   props C05
 //@   ensures closureof(ret, "WithIPTotalLength$1") && capt(ret, "length") == length
 //@ func WithPayload
+//@   sig payload
 //@   inline
 //@   props C05
 //@   ensures closureof(ret, "WithPayload$1") && capt(ret, "payload") == payload
 //@ func WithTTL
+//@   sig ttl
 //@   inline
 //@   props C05
 //@   ensures closureof(ret, "WithTTL$1") && capt(ret, "ttl") == ttl
 //@ func WithType
+//@   sig typ
 //@   inline
 //@   props C05
 //@   ensures closureof(ret, "WithType$1") && capt(ret, "typ") == typ
 //@ func WithVPNmode
+//@   sig vpnMode
 //@   inline
 //@   props C05
 //@   ensures closureof(ret, "WithVPNmode$1") && capt(ret, "vpnMode") == vpnMode
 
 //@ func (*PacketProcessor).Results
+//@   sig p
 //@   props C03 C14 C16 C06 C08 C20 C09 C10 C11 C12
 //@   observe Chan
 //@   entry row chan: [call Chan(p.results) as (c)] when ret == c -> exit
